@@ -49,6 +49,14 @@ def run(ctx):
         text = '(set-logic ALL)\n(declare-const x Int)\n(assert (> x 0))\n(check-sat)\n' + tail
         jobs.append(dict(text=text, opts=['--strategy', ['ddmin', 'hierarchical', 'hybrid'][k % 3], '-j', str(1 + k % 2)] + fmts[k % 3],
                          cmd=[e2e.TOKPRED, 'all', 'trigger'] if 'trigger' in e2e.sh_tokens(text) else [e2e.TOKPRED, 'all', '"trigger'], env={}, timeout=120))
+    # commands whose behaviour differs between candidates in line terminators only (CR LF / CR against LF)
+    for k in range(9 if ctx.thorough else 3):
+        j = e2ejobs.job(rng, fmt=fmts[k % 3], size='small', strategy=['ddmin', 'hierarchical', 'hybrid'][k % 3])
+        j['cmd'] = [e2e.TOKPRED, 'eol'] + j['cmd'][2:]
+        if k % 3 == 2:
+            j['opts'] = j['opts'] + ['--ignore-out']        # then stderr alone decides
+        j['timeout'] = 120
+        jobs.append(j)
     runs = e2e.run_many([{k: v for k, v in j.items() if k != 'cc'} for j in jobs])
     for j, r in zip(jobs, runs):
         w = e2e.writes_of(r)
